@@ -59,6 +59,8 @@ def main():
         notes="See DESIGN.md. Known findings: known_findings.json. All checks honour VERIF_SEED / VERIF_TIER.",
         not_applicable=na,
     )
+    assert all(c["level_claimed"]["category"] in ("exploration", "fault_enumeration", "model_checking", "proof", "translation_validation", "other")
+               for c in checks), "invalid level category in a manifest fragment"
     (VERIF / "MANIFEST.json").write_text(json.dumps(m, indent=1) + "\n")
     print(f"MANIFEST.json: {len(checks)} checks, {len(na)} not claimed")
 
